@@ -12,11 +12,15 @@
 From VR Require Import Model.C37 Proofs.C37.
 Local Open Scope nat_scope.
 
-(* Over the whole hook log of a history (all requests of all calls on both
+(* Token values: 0 = nil token, S n = the token issued by start n (a start may
+   legally return a nil token, and any context: the caller's, nil, a derived one).
+   Over the whole hook log of a history (all requests of all calls on both
    transports, in the order the hook saw them):
-   (1) every start id occurs at most once;
-   (2) in EVERY prefix of the log, the ends carrying token t never outnumber the
-       starts that returned t — no end without (or before) its start, no second end;
+   (1) every start id occurs at most once, and a non-nil token value S t is
+       returned by start t only — so it is returned at most once;
+   (2) in EVERY prefix of the log, the ends carrying token value t never outnumber
+       the starts that returned t — no end without (or before) its start, no
+       second end for a non-nil token;
    (3) at the end of the history, (ends with token t) + (requests still suspended
        between their start and their end that hold t) = (starts that returned t):
        once no request is suspended, every start that returned has had exactly one
@@ -24,7 +28,7 @@ Local Open Scope nat_scope.
 Theorem start_end_balanced_same_token : forall hs calls sched,
   let r := run hs calls sched in
   let evs := flat_evs (snd r) in
-  (forall t, cnt (is_start_of t) evs <= 1)
+  (forall t, cnt (is_start_of t) evs <= 1 /\ cnt (is_sret_of (S t)) evs <= cnt (is_start_of t) evs)
   /\ (forall p s t, evs = p ++ s -> cnt (is_end_tok t) p <= cnt (is_sret_of t) p)
   /\ (forall t, cnt (is_end_tok t) evs + held t (h_tab (fst r)) = cnt (is_sret_of t) evs).
 Proof. exact balanced. Qed.
@@ -38,20 +42,55 @@ Proof.
   specialize (B t). rewrite Q in B. cbn in B. now rewrite Nat.add_0_r in B.
 Qed.
 
-(* The token: a request that runs through sees [start n; end n] (end only if the
-   start returned); a request suspended in its handler gets, when it resumes, the
-   end with the token ITS start returned, whatever happened to the hook meanwhile. *)
+(* The token: a request that runs through sees [start n; end tv] where tv is exactly
+   the token value start n returned (end only if the start returned); a request
+   suspended in its handler gets, when it resumes, the end with the token ITS
+   start returned, whatever happened to the hook meanwhile. *)
 Theorem end_carries_the_starts_token : forall hs h s e,
   s_part s = PtWhole e ->
   q_evs (snd (drq hs h s)) =
-  HStart (h_next h) (start_ret hs (h_next h)) :: (if start_ret hs (h_next h) then [HEnd (h_next h) e] else []).
+  HStart (h_next h) (start_out hs (h_next h))
+  :: match start_out hs (h_next h) with Some (tv, _) => [HEnd tv e] | None => [] end.
 Proof. exact whole_events. Qed.
 
 Theorem suspended_request_gets_its_own_token : forall hs h s1 s2 e,
   s_part s1 = PtBegin -> s_part s2 = PtEnd e -> s_k s2 = s_k s1 ->
-  q_evs (snd (drq hs h s1)) = [HStart (h_next h) (start_ret hs (h_next h))]
-  /\ q_evs (snd (drq hs (fst (drq hs h s1)) s2)) = (if start_ret hs (h_next h) then [HEnd (h_next h) e] else []).
+  q_evs (snd (drq hs h s1)) = [HStart (h_next h) (start_out hs (h_next h))]
+  /\ q_evs (snd (drq hs (fst (drq hs h s1)) s2))
+     = match start_out hs (h_next h) with Some (tv, _) => [HEnd tv e] | None => [] end
+  /\ q_seen (snd (drq hs (fst (drq hs h s1)) s2)) = (if s_user s2 then Some (cv_of (start_out hs (h_next h))) else None).
 Proof. exact suspended_events. Qed.
+
+(* The token flows start -> end independently of the context component: for EVERY
+   shape [sh] of what a returning start hands back — (ctx, token), (nil ctx, token),
+   (ctx, nil token), (nil, nil), (derived ctx, token) — end receives tokv sh n, which
+   does not look at the context ([token_value_ignores_context]); user code runs
+   under the derived context exactly when one was returned (ctxv). *)
+Theorem token_reaches_end_for_every_return_shape : forall hs h s e sh,
+  s_part s = PtWhole e -> hb_sp (beh hs (h_next h)) = false -> hb_ret (beh hs (h_next h)) = sh ->
+  q_evs (snd (drq hs h s)) = [HStart (h_next h) (Some (tokv sh (h_next h), ctxv sh (h_next h))); HEnd (tokv sh (h_next h)) e]
+  /\ q_seen (snd (drq hs h s)) = (if s_user s then Some (ctxv sh (h_next h)) else None).
+Proof. exact whole_any_shape. Qed.
+
+Theorem token_reaches_resumed_end_for_every_return_shape : forall hs h s1 s2 e sh,
+  s_part s1 = PtBegin -> s_part s2 = PtEnd e -> s_k s2 = s_k s1 ->
+  hb_sp (beh hs (h_next h)) = false -> hb_ret (beh hs (h_next h)) = sh ->
+  q_evs (snd (drq hs (fst (drq hs h s1)) s2)) = [HEnd (tokv sh (h_next h)) e]
+  /\ q_seen (snd (drq hs (fst (drq hs h s1)) s2)) = (if s_user s2 then Some (ctxv sh (h_next h)) else None).
+Proof. exact suspended_any_shape. Qed.
+
+Theorem token_value_ignores_context : forall n,
+  tokv RCtxTok n = S n /\ tokv RNilCtx n = S n /\ tokv RDerived n = S n /\ tokv RNilTok n = 0 /\ tokv RNilNil n = 0.
+Proof. exact tokv_shapes. Qed.
+
+(* the regression this was extended for: start returns (nil ctx, token 1) on the
+   pipe, the call site drops the token with the context, end sees nil — that
+   observation fails spec_ok; the model's own observation passes *)
+Theorem nil_context_token_drop_is_rejected :
+  spec_ok nilctx_input nilctx_dropped_obs = false
+  /\ flat_evs (o_run (model nilctx_input)) = [HStart 0 (Some (1, 0)); HEnd 1 false]
+  /\ spec_ok nilctx_input (model nilctx_input) = true.
+Proof. exact nilctx_witness. Qed.
 
 (* end receives a non-nil error exactly when the response reports an error to the
    client (4xx/5xx status, X-VGI-RPC-Error, an EXCEPTION batch in the body, an
@@ -136,10 +175,13 @@ Theorem http_write_error_paths_misreport_refuted :
 Proof. exact write_error_witness. Qed.
 
 (* non-vacuity: a clean interleaved history over both transports with a start that
-   panics and an end that panics; seven requests, the log pairs up as stated *)
+   returns a nil context, one that panics, one that derives a context, one that
+   returns a nil token, and an end that panics; seven requests *)
 Example premises_satisfiable :
   clean example_input = true
   /\ flat_evs (o_run (model example_input)) =
-     [HStart 0 true; HStart 1 false; HEnd 0 false; HStart 2 true; HEnd 2 false; HStart 3 true; HEnd 3 true]
+     [HStart 0 (Some (1, 0)); HStart 1 None; HEnd 1 false; HStart 2 (Some (3, 3)); HEnd 3 false;
+      HStart 3 (Some (0, 0)); HEnd 0 true]
+  /\ map q_seen (concat (o_run (model example_input))) = [None; None; Some 0; Some 0; Some 3; None; Some 0]
   /\ length (concat (o_run (model example_input))) = 7.
 Proof. exact example_ok. Qed.
